@@ -71,7 +71,8 @@ class Engine:
         return str(r), m
 
     # ------------------------------------------------------------ path state
-    def _start_path(self, trail, model):
+    def _start_path(self, trail, model, nforks=0):
+        self.nforks = nforks
         common = 0
         lt = self.last_trail
         while common < len(lt) and common < len(trail) and lt[common] == trail[common]:
@@ -129,7 +130,7 @@ class Engine:
             replay = True
         else:
             replay = False
-            if self.split_depth is not None and i >= self.split_depth:
+            if self.split_depth is not None and self.nforks >= self.split_depth:
                 raise Frontier()
             if self.model is None:
                 r, m = self._check()
@@ -144,7 +145,8 @@ class Engine:
             other = z3.Not(cond) if d else cond
             r, m = self._check(other)
             if r == "sat":
-                self.worklist.append((self.trail[:i] + [not d], m))
+                self.nforks += 1
+                self.worklist.append((self.trail[:i] + [not d], m, self.nforks))
             elif r == "unknown":
                 self.inconclusive.append("unknown at branch feasibility check (branch not explored)")
             self.trail.append(d)
@@ -178,7 +180,7 @@ class Engine:
     def explore(self, fn, roots=None, max_paths=None, deadline=None, on_path=None, stop_on_cex=True):
         """fn() -> list of (name, z3 Bool | bool) obligations.  Returns dict with
         counterexamples [(name, model, trail)], leftover worklist trails."""
-        self.worklist = [(list(t), None) for t in (roots if roots is not None else [[]])]
+        self.worklist = [(list(t), None, 0) for t in (roots if roots is not None else [[]])]
         cex = []
         frontier = []
         npaths = 0
@@ -187,8 +189,8 @@ class Engine:
                 break
             if deadline is not None and time.time() > deadline:
                 break
-            trail, model = self.worklist.pop()
-            self._start_path(trail, model)
+            trail, model, nforks = self.worklist.pop()
+            self._start_path(trail, model, nforks)
             try:
                 try:
                     obligations = fn()
@@ -234,7 +236,7 @@ class Engine:
                 cex.append((name, m, list(self.trail[: self.pos])))
             if failed and stop_on_cex:
                 break
-        left = [t for t, _ in self.worklist]
+        left = [t for t, _, _ in self.worklist]
         self.worklist = []
         return dict(cex=cex, left=left, frontier=frontier)
 
